@@ -202,9 +202,14 @@ impl<L: LanguageChildren> LanguageChildren for Bind<L> {
 
     fn weak_shape_impl(&mut self, m: &mut (SlotMap, u32)) {
         let s = self.slot;
+        // The binder shadows an outer slot of the same name only within `elem`.
+        let shadowed = m.0.get(s);
         add_slot(&mut self.slot, m);
         self.elem.weak_shape_impl(m);
-        m.0.remove(s);
+        match shadowed {
+            Some(old) => m.0.insert(s, old),
+            None => m.0.remove(s),
+        }
     }
 }
 
